@@ -656,4 +656,91 @@ Proof.
   - exact (unsat_skep af e (cls ps) dv atk Ht Hinv Hz H2 H3 H4 H5 id v Ha Hid Hv).
 Qed.
 
+Lemma cred_scan_hit (rb : list (devent L)) l b X :
+  cred_scan L leqb rb l = (Some b, Some X) ->
+  b = true /\ exists ev, In ev (trailing_rev L rb) /\ exists acc refused,
+    (ev = DCred L acc refused (Some X) \/ ev = DSkep L acc refused (Some X)) /\ lmem L leqb l acc = true.
+Proof.
+  induction rb as [|ev r IH]; cbn [cred_scan]; [discriminate|].
+  destruct ev as [x|x|x y|x y|acc refused o|acc refused o]; try discriminate; cbn [trailing_rev is_update_ev].
+  - destruct o as [X0|].
+    + destruct (lmem L leqb l acc) eqn:Em.
+      * intros H. injection H as <- <-. split; [reflexivity|].
+        exists (DCred L acc refused (Some X0)). split; [left; reflexivity|]. exists acc, refused. auto.
+      * destruct (lmem L leqb l refused); [discriminate|].
+        intros H. destruct (IH H) as (Hb & ev & Hin & Hev). split; [exact Hb|]. exists ev. split; [right; exact Hin|exact Hev].
+    + destruct (lmem L leqb l refused); [discriminate|].
+      intros H. destruct (IH H) as (Hb & ev & Hin & Hev). split; [exact Hb|]. exists ev. split; [right; exact Hin|exact Hev].
+  - destruct o as [X0|].
+    + destruct (lmem L leqb l acc) eqn:Em.
+      * intros H. injection H as <- <-. split; [reflexivity|].
+        exists (DSkep L acc refused (Some X0)). split; [left; reflexivity|]. exists acc, refused. auto.
+      * intros H. destruct (IH H) as (Hb & ev & Hin & Hev). split; [exact Hb|]. exists ev. split; [right; exact Hin|exact Hev].
+    + intros H. destruct (IH H) as (Hb & ev & Hin & Hev). split; [exact Hb|]. exists ev. split; [right; exact Hin|exact Hev].
+Qed.
+
+(* ---- the cache invariant: every trailing computation event is sound for the solver's own framework,
+   and while there are such events nothing is left to replay *)
+Definition CInv (sm : sem) (s : dsolver) : Prop :=
+  (forall ev, In ev (trailing (s_buf L s)) -> cache_ok sm (s_af L s) ev) /\
+  (trailing (s_buf L s) <> [] -> forall ev, In ev (pending (s_buf L s)) -> is_update_ev L ev = false).
+
+Lemma pushed_CInv sm (s : dsolver) af buf ev :
+  CInv sm s -> af = fold_left ev_apply (pending (s_buf L s)) (s_af L s) ->
+  b_buffer L buf = b_buffer L (s_buf L s) -> b_next L buf = length (b_buffer L (s_buf L s)) ->
+  is_update_ev L ev = false -> cache_ok sm af ev ->
+  CInv sm (pushed_state L s af buf ev).
+Proof.
+  intros [C1 C2] Haf Hb Hn Hev Hok. unfold CInv, pushed_state, DynDefs.trailing, DynDefs.pending, buf_push, buf_with.
+  cbn [s_buf s_af b_buffer b_next]. rewrite Hb, trailing_snoc, Hev. split.
+  - intros ev' [<-|Hin]; [exact Hok|].
+    assert (Hne : trailing (s_buf L s) <> []).
+    { unfold DynDefs.trailing. intros E. rewrite E in Hin. destruct Hin. }
+    rewrite Haf, (fold_no_update L leqb _ _ (C2 Hne)). apply C1. exact Hin.
+  - intros _ ev'. rewrite Hn, skipn_app, skipn_all, Nat.sub_diag. cbn [skipn app]. intros [<-|[]]. exact Hev.
+Qed.
+
+Theorem vreach_CInv oracle thr k s ps os :
+  valid_oracle oracle -> vreach oracle thr k s ps os -> k = KCo \/ k = KSt -> CInv (sem_of k) s.
+Proof.
+  intros Hvalid Hv Hk.
+  induction Hv as [ps0 s ps Hn|s ps os o Hr IH|s ps os fuel q cert l s' a ps' Hr IH Hq].
+  - unfold dyn_new in Hn. destruct Hk as [-> | ->];
+      apply bind_Done in Hn; destruct Hn as (u & ps1 & _ & Hn); apply Done_inj in Hn; destruct Hn as [<- _];
+      (split; cbn [s_buf s_af]; unfold DynDefs.trailing; cbn; [tauto|congruence]).
+  - pose proof (vreach_reach L leqb _ _ _ _ _ _ Hr) as Hr'.
+    pose proof (reach_frame_inv L leqb _ _ _ Hr') as [Hkind _ _ _].
+    unfold dyn_update. pose proof (buf_update_spec L leqb (s_buf L s) o) as Hb. cbv zeta in Hb.
+    destruct Hb as (_ & _ & _ & _ & Hcase). rewrite Hkind.
+    assert (G : CInv (sem_of k) {| s_kind := s_kind L s; s_af := s_af L s; s_buf := fst (buf_update L leqb (s_buf L s) o) |}).
+    { destruct Hcase as [(_ & ev & Hev & Hbf & _)|(_ & ->)]; [|destruct s; exact IH].
+      unfold CInv, DynDefs.trailing. cbn [s_buf s_af]. rewrite Hbf, trailing_snoc, Hev.
+      split; [intros ev' []|congruence]. }
+    destruct Hk as [-> | ->]; destruct (buf_update L leqb (s_buf L s) o) as [b r]; cbn [fst snd] in *; exact G.
+  - pose proof (vreach_reach L leqb _ _ _ _ _ _ Hr) as Hr'.
+    pose proof (reach_frame_inv L leqb _ _ _ Hr') as [Hkind _ _ _].
+    destruct (dyn_query_std_inv L leqb oracle thr fuel s q cert l ps s' a ps' (ltac:(rewrite Hkind; exact Hk)) Hq)
+      as (ans & _ & [[_ Hdc]|[_ [_ Hds]]]).
+    + destruct (dc_query_inv L leqb oracle s l ps s' ans ps' Hdc) as
+        [(b & X & _ & -> & _ & _)|(_ & af & buf & ps1 & Hue & Hrest)]; [exact IH|].
+      destruct (query_ready oracle thr k s ps os af buf ps1 Hr Hk Hue) as (e & He & Hrd & Hsem & Haf & Hbf & Hnx).
+      destruct (update_encoding_spec L leqb _ _ _ _ _ Hue) as (E1 & _). cbn [fst] in E1.
+      destruct (Hrest e He) as (id & v & Hid & Hvv & _ & Hans).
+      pose proof (dc_answer oracle af e ps1 l id v Hvalid Hrd Hid Hvv) as Hda.
+      destruct (answer_of oracle ps1 (e_assum e ++ [zlit v])) as [m| |]; [| |destruct Hans].
+      * destruct Hans as (acc & Hacc & -> & _). destruct Hda as (_ & _ & _ & _ & Hok).
+        apply pushed_CInv; auto. rewrite <- Hsem. apply Hok, Hacc.
+      * destruct Hans as (-> & _). apply pushed_CInv; auto. exact I.
+    + destruct (st_ds_query_inv L leqb oracle s l ps s' ans ps' Hds) as
+        [(b & X & _ & -> & _ & _)|(_ & af & buf & ps1 & Hue & Hrest)]; [exact IH|].
+      destruct (query_ready oracle thr k s ps os af buf ps1 Hr Hk Hue) as (e & He & Hrd & Hsem & Haf & Hbf & Hnx).
+      destruct (update_encoding_spec L leqb _ _ _ _ _ Hue) as (E1 & _). cbn [fst] in E1.
+      destruct (Hrest e He) as (id & v & Hid & Hvv & _ & Hans).
+      pose proof (ds_answer oracle af e ps1 l id v Hvalid Hrd Hid Hvv) as Hda.
+      destruct (answer_of oracle ps1 (e_assum e ++ [znlit v])) as [m| |]; [| |destruct Hans].
+      * destruct Hans as (refused & Href & -> & _). destruct Hda as (_ & _ & _ & _ & Hok).
+        apply pushed_CInv; auto. rewrite <- Hsem. apply Hok, Href.
+      * destruct Hans as (refused & -> & _). apply pushed_CInv; auto. exact I.
+Qed.
+
 End DynFun.
